@@ -153,7 +153,9 @@ class _Mpe(Contract):
         if self.with_cov:
             covs = (S.array("Fn_cov", "float", shape=(n0, n1)), S.array("Xi_cov", "float", shape=(n0, n1)),
                     S.array("Phi_cov", "float", shape=(n0, n1, L)))
-        c.memo["ghost:mpe"] = {"order_of": order_of}
+        # the specification speaks about the ARGUMENTS: locals of the same name may be rebound by the code
+        c.memo["ghost:mpe"] = {"order_of": order_of, "Fn_pol": Fn, "Xi_pol": Xi, "Phi_pol": Phi, "freq_ref": freq_ref, "rtol": rtol,
+                               "order": order, "covs": covs}
         return Fn, Xi, Phi, freq_ref, order, rtol, covs
 
     def order_fn(self, c, order):
@@ -163,16 +165,17 @@ class _Mpe(Contract):
 def _ssi_loop(variant, with_cov):
     def state(k, pre, it):
         c = cur()
-        order_of = c.memo["ghost:mpe"]["order_of"]
-        covs = (pre["Fn_cov"], pre["Xi_cov"], pre["Phi_cov"]) if with_cov else None
-        lists, K = extraction(pre["Fn_pol"], pre["Xi_pol"], pre["Phi_pol"], pre["freq_ref"], order_of, pre["rtol"], covs)
+        g = c.memo["ghost:mpe"]
+        order_of = g["order_of"]
+        covs = g["covs"] if with_cov else None
+        lists, K = extraction(g["Fn_pol"], g["Xi_pol"], g["Phi_pol"], g["freq_ref"], order_of, g["rtol"], covs)
         if not isinstance(k, int):
             N.ground(zi(k), dom="request")
         st = lists(k)
         if variant == "int":
-            st["order_out"] = pre["order"]
+            st["order_out"] = g["order"]
         else:
-            st["order_out"] = N.asarray(pre["order"])
+            st["order_out"] = N.asarray(g["order"])
         return st
     return LoopSpec(state)
 
@@ -233,18 +236,19 @@ class SSI_mpe_int_cov(_SSI_mpe):
 def _plscf_loop(variant):
     def state(k, pre, it):
         c = cur()
-        order_of = c.memo["ghost:mpe"]["order_of"]
+        g = c.memo["ghost:mpe"]
+        order_of = g["order_of"]
         if not isinstance(k, int):
             N.ground(zi(k), dom="request")
-        lists, K = extraction(pre["Fn_pol"], pre["Xi_pol"], pre["Phi_pol"], pre["sel_freq"], order_of, pre["rtol"], None)
+        lists, K = extraction(g["Fn_pol"], g["Xi_pol"], g["Phi_pol"], g["freq_ref"], order_of, g["rtol"], None)
         ls = lists(k)
         st = {"sel_freq1": ls["sel_freq"], "sel_xi": ls["sel_xi"], "sel_phi": ls["sel_phi"]}
         if variant == "int":
             # rebound to the order at every request (n_req >= 1); the allocation survives only before the first one
-            st["order_out"] = Lazy_order_out(k, pre["order_out"], pre["order"])
+            st["order_out"] = Lazy_order_out(k, pre["order_out"], g["order"])
         else:
             e0 = pre["order_out"].snapshot_fn()
-            od = pre["order"]
+            od = g["order"]
             st["order_out"] = Arr(pre["order_out"].axes, lambda idx: sym.ite(zi(idx[0][0]) < zi(k), sym.cast(od.get(idx[0][0]), "float"), e0(idx)), "float")
         return st
     return LoopSpec(state)
